@@ -608,7 +608,8 @@ func (bridge *ExprBridge) convertLikeToFunction(field, pattern string) string {
 		inner := strings.Trim(pattern, "%")
 		if inner == "" {
 			// %% 表示匹配任何字符串
-			return "true"
+			// (any string, but not NULL: NULL LIKE '%%' is not true)
+			return fmt.Sprintf("%s != nil", field)
 		}
 		return fmt.Sprintf("%s contains '%s'", field, inner)
 	} else if strings.HasPrefix(pattern, "%") && len(pattern) > 1 {
@@ -623,7 +624,8 @@ func (bridge *ExprBridge) convertLikeToFunction(field, pattern string) string {
 		return fmt.Sprintf("%s startsWith '%s'", field, prefix)
 	} else if pattern == "%" {
 		// 单独的%匹配任何字符串
-		return "true"
+		// (any string, but not NULL: NULL LIKE '%' is not true)
+		return fmt.Sprintf("%s != nil", field)
 	} else if strings.Contains(pattern, "%") || strings.Contains(pattern, "_") {
 		// 复杂模式（如prefix%suffix）或包含单字符通配符，使用自定义的like_match函数
 		return fmt.Sprintf("like_match(%s, '%s')", field, pattern)
